@@ -185,7 +185,8 @@ Definition first_poll (g : cfg) (s : st) (c : nat) : st :=
     spawn_drop (negb (closer_release_wakes g))
       (set_closers s (upd (closers s) c (w_pc CGone)))
   else
-    mk_st (strong s) true (waker s) (wwoken s) (fd s) (closes s) (handles s) (ops s) (forgotten s)
+    (* this poll consumes whatever notification its task had *)
+    mk_st (strong s) true (waker s) false (fd s) (closes s) (handles s) (ops s) (forgotten s)
           (upd (closers s) c (fun x => mk_closer CTry1 (cf x) true)) (droppers s).
 
 Definition poll_step (g : cfg) (s : st) (c : nat) : option st :=
